@@ -18,6 +18,9 @@ atoms): `*_shapes` states what is returned and that whatever passes `IOData(**re
 of three coordinates, `atnums` of length `natom`, cell `(3, 3)`, grid data of three dimensions holding exactly
 their product of values), everything else is the constructor's `TypeError` ⇒ `LoadError`; `*_failures` lists the
 exception classes each reader can raise (each attained, see the examples).
+CHARMM CRD (`crd_*`): read bound `N + 1` (the title loop reads one line per iteration and turns the end of the file
+into `LoadError`); every returned dictionary has `atcoords (natom, 3)`, `atmasses (natom,)`, three `atffparams` arrays
+and `segid`/`resid` in `extra` of length `natom` and passes the constructor; `crd_failures` lists the classes.
 Generic: `ctor_shapes` (validators ⇒ consistent shapes, anything else is `TypeError` ⇒ `LoadError`),
 `reader_load_one` (any reader outcome through the funnel), `reader_load_many_partial` (any sequence of reader
 outcomes as the frames of a generator-based `load_many`: `StopIteration` ⇒ `RuntimeError` (PEP 479) ⇒ `LoadError`;
@@ -25,6 +28,7 @@ partial: see there).
 -/
 import Iodata.Lemmas.C07Readers
 import Iodata.Lemmas.C07Vasp
+import Iodata.Lemmas.C07Crd
 import Iodata.Props.C07
 import Iodata.Gen.Layouts
 
@@ -760,6 +764,124 @@ theorem locpot_failures (T : Tables) (ls : List Str) (c : Cls) (h : (Rd.Vasp.rea
     c ∈ [Cls.stopIter, .value, .key, .index, .overflow, .memory, .type, .name] :=
   run_error_mem (Rd.Vasp.grid_raises T) ls c h
 
+
+/-! ## CHARMM CRD -/
+
+theorem crd_good : Good Rd.Crd.loadOne := by
+  unfold Rd.Crd.loadOne Rd.Crd.helper
+  refine good_bind Rd.Crd.titleSec_good fun _ => good_bind good_next fun _ =>
+    good_bind (good_liftE _) fun _ => good_bind (good_liftE _) fun _ =>
+    good_bind (good_repeatN (good_bind good_next fun _ => good_liftE _) _) fun _ => good_pure _
+
+/-- **crd_terminates**: on any list of lines the CRD reader (title loop: one line per iteration, the end of the
+file ends it with `LoadError`; atom loop: `natom` iterations, one line each) returns an object or raises a class of
+the enumeration, after at most `N + 1` reads. -/
+theorem crd_terminates (ls : List Str) :
+    ((∃ o, (Rd.Crd.read ls).res = .ok o) ∨ (∃ c, (Rd.Crd.read ls).res = .error c)) ∧
+    (Rd.Crd.read ls).lineno ≤ ls.length + 1 := by
+  refine ⟨?_, run_lineno_le crd_good.fin ls⟩
+  cases (Rd.Crd.read ls).res with
+  | ok o => exact Or.inl ⟨o, rfl⟩
+  | error c => exact Or.inr ⟨c, rfl⟩
+
+/-- **crd_shapes**: a returned CRD result has `atcoords (natom, 3)`, `atmasses (natom,)`, the three `atffparams`
+arrays (`attypes`, `resnames`, `resnums`) and the two per-atom arrays of `extra` (`segid`, `resid`) of length
+`natom` — `natom` being the count read from the file — and passes the constructor. -/
+theorem crd_shapes (ls : List Str) (o : RObj) (h : (Rd.Crd.read ls).res = .ok o) :
+    ∃ n, o.natom = some n ∧ o.FullyConsistent n ∧ ctorE o = none ∧
+      o.atcoords = some [n, 3] ∧ o.atmasses = some [n] ∧ o.atffparams = [n, n, n] ∧ o.extraAtom = [n, n] := by
+  unfold Rd.Crd.read run at h
+  rcases hm : Rd.Crd.loadOne ⟨ls, 0⟩ with ⟨r, l'⟩
+  rw [hm] at h
+  simp only at h
+  subst h
+  unfold Rd.Crd.loadOne Rd.Crd.helper at hm
+  obtain ⟨_, _, -, hm⟩ := bind_ok hm
+  obtain ⟨_, _, -, hm⟩ := bind_ok hm
+  obtain ⟨natom, _, -, hm⟩ := bind_ok hm
+  obtain ⟨_, _, -, hm⟩ := bind_ok hm
+  obtain ⟨_, _, -, hm⟩ := bind_ok hm
+  obtain ⟨ho, -⟩ := pure_ok hm
+  subst ho
+  refine ⟨natom.toNat, rfl, ⟨⟨?_, ?_, ?_, ?_, ?_, ?_, ?_⟩, ?_, ?_⟩, ?_, rfl, rfl, rfl, rfl⟩ <;>
+    simp [ctorE, ctorOk, RObj.natom, optShape, shapeMatch, lenOf]
+
+/-- **crd_reads**: the number of atoms of a returned CRD result is the value of the atom-count line (the first
+line after the title section's bare `*`), and all `natom` atom lines were read: at least `natom + 2` reads. -/
+theorem crd_reads (ls : List Str) (o : RObj) (h : (Rd.Crd.read ls).res = .ok o) :
+    ∃ n, o.natom = some n ∧ n + 2 ≤ (Rd.Crd.read ls).lineno := by
+  unfold Rd.Crd.read run at h ⊢
+  rcases hm : Rd.Crd.loadOne ⟨ls, 0⟩ with ⟨r, l'⟩
+  rw [hm] at h
+  simp only at h ⊢
+  subst h
+  unfold Rd.Crd.loadOne Rd.Crd.helper at hm
+  obtain ⟨_, l1, ht, hm⟩ := bind_ok hm
+  obtain ⟨_, l2, hn, hm⟩ := bind_ok hm
+  obtain ⟨natom, l3, hc, hm⟩ := bind_ok hm
+  obtain ⟨_, l4, ha, hm⟩ := bind_ok hm
+  obtain ⟨_, l5, hr, hm⟩ := bind_ok hm
+  obtain ⟨ho, hl⟩ := pure_ok hm
+  subst ho; subst hl
+  have h1 := Rd.Crd.titleSec_reads ht
+  have h2 : l2.lineno = l1.lineno + 1 := by
+    unfold nextLine at hn
+    split at hn <;> simp at hn
+    rw [← hn.2]
+  obtain ⟨-, e3⟩ := liftE_ok hc
+  obtain ⟨-, e4⟩ := liftE_ok ha
+  subst e3; subst e4
+  have h5 : ∀ (k : Nat) (a b : Lit), repeatN (RM.bind nextLine fun l => liftE (Rd.Crd.atomLine l)) k a = (.ok (), b) →
+      b.lineno = a.lineno + k := by
+    intro k
+    induction k with
+    | zero => intro a b hk; obtain ⟨-, e⟩ := pure_ok hk; subst e; rfl
+    | succ k ih =>
+      intro a b hk
+      unfold repeatN at hk
+      obtain ⟨_, a1, hb, hk⟩ := bind_ok hk
+      obtain ⟨_, a2, hb1, hb2⟩ := bind_ok hb
+      obtain ⟨-, e⟩ := liftE_ok hb2
+      have h7 : a2.lineno = a.lineno + 1 := by
+        unfold nextLine at hb1
+        split at hb1 <;> simp at hb1
+        rw [← hb1.2]
+      have h8 := ih a1 b hk
+      rw [e] at h8
+      omega
+  have h6 := h5 _ _ _ hr
+  refine ⟨natom.toNat, rfl, ?_⟩
+  simp only at h1
+  omega
+
+/-- **crd_load_one**: `load_one` on any CRD file content returns an object with consistent shapes or raises
+`LoadError`; the file is closed. -/
+theorem crd_load_one (ls : List Str) (path : Nat) (fs : FS) :
+    ∃ st', runLoadOne loadOne (behOf (Rd.Crd.read ls) ls.length) path fs = (apiOutcome (Rd.Crd.read ls), st') ∧
+      IsObjOrLoadError (apiOutcome (Rd.Crd.read ls)) ∧ st'.fs = fs ∧
+      ∃ evs, st'.trace = .close :: (evs ++ [.openR]) ∧ LoadEvs evs :=
+  reader_load_one _ _ _ _
+
+/-- **crd_failures**: whenever the CRD reader raises, the class is one of `LoadError` (no bare `*` before the end
+of the file; an atom-count line that is not `isdigit()`), `StopIteration` (no count line, fewer atom lines than the
+count), `ValueError` (`int()` of an `isdigit()` string that is not decimal, `int()`/`float()` of a word, `np.zeros`
+beyond `intp`), `MemoryError` (`np.zeros`), `IndexError` (an atom line with fewer than ten words) — all of them
+`Exception`s, which the funnel turns into `LoadError` (`crd_load_one`). -/
+theorem crd_failures (ls : List Str) (c : Cls) (h : (Rd.Crd.read ls).res = .error c) :
+    c ∈ [Cls.load, .stopIter, .value, .memory, .index] :=
+  run_error_mem Rd.Crd.crd_raises ls c h
+
+/-- a CRD object always went through the constructor unharmed: the API returns it -/
+theorem crd_ok_returns (ls : List Str) (o : RObj) (h : (Rd.Crd.read ls).res = .ok o) :
+    apiOutcome (Rd.Crd.read ls) = .ret := by
+  obtain ⟨n, -, -, hc, -⟩ := crd_shapes ls o h
+  rw [reader_load_one_ret]
+  refine ⟨o, h, ?_⟩
+  unfold ctorE at hc
+  by_cases hk : ctorOk o = true
+  · exact hk
+  · simp [hk] at hc
+
 /-! ### non-vacuity (the generated tables, evaluated by the kernel) -/
 
 example : (Rd.Xyz.read Gen.Layouts.tables
@@ -817,5 +939,26 @@ example : Rd.Vasp.readChgcar Gen.Layouts.tables
     ([['t','\n'], ['1','\n'], ['1',' ','0','\n'], ['0',' ','1','\n'], ['0',' ','0','\n'], ['H','\n'], ['1','\n'],
       ['C','\n'], ['0',' ','0',' ','0','\n'], ['1',' ','1',' ','1','\n'], ['5','\n']]) = ⟨.error .type, 11⟩ := by
   decide +kernel
+
+/-- a CRD file of two atoms (two title lines, a line without `*` that is skipped, the bare `*`) -/
+def crdEx : List Str :=
+  [['*',' ','t','\n'], ['x','\n'], ['*','\n'], [' ','2','\n'],
+   ['1',' ','1',' ','T','H','R',' ','N',' ','1','.','5',' ','-','2',' ','3','e','0',' ','A',' ','1',' ','0','.','0','\n'],
+   ['2',' ','1',' ','T','H','R',' ','C',' ','0',' ','0',' ','0',' ','A',' ','1',' ','1','2','\n']]
+example : Rd.Crd.read crdEx
+    = ⟨.ok { atcoords := some [2, 3], atmasses := some [2], atffparams := [2, 2, 2], extraAtom := [2, 2],
+             hasTitle := true, hasAtffparams := true, hasExtra := true }, 6⟩ := by decide +kernel
+example : apiOutcome (Rd.Crd.read crdEx) = .ret := by decide +kernel
+example : Rd.Crd.read (crdEx.take 5) = ⟨.error .stopIter, 6⟩ := by decide +kernel
+example : Rd.Crd.read (crdEx.take 3) = ⟨.error .stopIter, 4⟩ := by decide +kernel
+example : Rd.Crd.read (crdEx.take 2) = ⟨.error .load, 3⟩ := by decide +kernel
+example : apiOutcome (Rd.Crd.read (crdEx.take 2)) = .raised .load none := by decide +kernel
+example : Rd.Crd.read (crdEx.take 3 ++ [['x','\n']]) = ⟨.error .load, 4⟩ := by decide +kernel
+example : Rd.Crd.read (crdEx.take 3 ++ [['\u00b2','\n']]) = ⟨.error .value, 4⟩ := by decide +kernel
+example : Rd.Crd.read (crdEx.take 3 ++ [['1','\n'], ['1',' ','1',' ','T','H','R','\n']]) = ⟨.error .index, 5⟩ := by
+  decide +kernel
+example : Rd.Crd.read (crdEx.take 3 ++ [['3','0','0','0','0','0','0','0','0','0','\n']]) = ⟨.error .memory, 4⟩ := by
+  decide +kernel
+example : apiOutcome (Rd.Crd.read (crdEx.take 5)) = .raised .load (some 6) := by decide +kernel
 
 end Iodata.Props.C07Readers
